@@ -302,6 +302,21 @@ def cases(tier):
                 deadline_s=1200,
             )
         )
+    # the drive columns follow the REGISTER order of the atoms, whatever their ids are called (a serialisation
+    # round trip renames integer ids to strings: same physics, other sort order) - shared with C22
+    from harness.c22 import extract as _extract, COVERS as _COVERS_EXTRACT
+
+    out.append(
+        Case(
+            "adapter_columns_follow_register_order",
+            _extract(2, 2, 2),
+            covers=_COVERS_EXTRACT,
+            bounds={"samples": 2, "steps": 2, "atoms": 2, "ids": "register order differs from the sorted order of the ids"},
+            canaries=["left_endpoint"],
+            weight=20,
+            timeout_ms=60000,
+        )
+    )
     for n, d in ([(2, 2), (3, 2), (2, 3)] if quick else [(1, 2), (2, 2), (3, 2), (2, 3), (3, 3)]):
         out.append(
             Case(
